@@ -6,6 +6,8 @@ WT="$1"; SEEDS="$2"; shift 2
 B=/tmp/sv/$(basename "$WT")-$$
 mkdir -p "$B"
 rsync -a --exclude .git --exclude .work --exclude seeded --exclude 'replays*' --exclude mutants /verif/ "$B/verif/"
+# in-progress (untracked) proof files of other agents are not part of the committed machinery
+git -C /verif ls-files --others --exclude-standard lean/DDS | while read f; do rm -f "$B/verif/$f"; done
 trap 'rm -rf "$B"' EXIT
 export GOFLAGS=-mod=mod GOPROXY=off GOSUMDB=off GOTOOLCHAIN=local CGO_ENABLED=0
 for prop in "$@"; do
